@@ -179,7 +179,10 @@ def string_cases(tier, seed, want, tag, sizing=False, hostile=False,
         if want(k):
             rng = _r.Random('%d/%d/%s/s' % (seed, j, tag))
             src, ast = docgen.gen_doc(rng, cfg_general(j, tier))
-            if j % 3:
+            if j % 7 == 3:
+                src = docgen.render_padded_names(ast, rng)
+                w = 'padded-name-doc'
+            elif j % 3:
                 src = docgen.render_spaced(ast, rng)
                 w = 'spaced-doc'
             else:
